@@ -59,7 +59,6 @@ theorem inner_eq (be : Bool) (flat src rest : List Nat) (offS size max : Nat) (h
       have tail : ∀ (ch sk1 : Nat), look be flat (offS + 2 * i) = some ch → sk1 = 2 * (i + 1) - size →
           (2 * i + 2 ≤ size ∨ size = 2 * i + 1) →
           conv (if ch = 65534 ∧ offS = 0 ∧ i = 0 then Utf16P.Res.fail w
-            else if ch = 65279 ∧ offS = 0 ∧ i = 0 then inner be flat offS size max src fuel (i + 1) out sk1 w
             else if 55296 ≤ ch ∧ ch ≤ 56319 then
               match
                 (if size / 2 ≤ i + 1 then
@@ -85,12 +84,7 @@ theorem inner_eq (be : Bool) (flat src rest : List Nat) (offS size max : Nat) (h
         by_cases c1 : ch = 65534 ∧ offS = 0 ∧ i = 0
         · rw [if_pos c1, if_pos c1]; rfl
         · rw [if_neg c1, if_neg c1]
-          by_cases c2 : ch = 65279 ∧ offS = 0 ∧ i = 0
-          · rw [if_pos c2, if_pos c2]
-            simp only [List.append_nil]
-            rw [hsk, ih (i + 1) out w]; simp only [e1]
-          · rw [if_neg c2, if_neg c2]
-            by_cases c3 : 55296 ≤ ch ∧ ch ≤ 56319
+          · by_cases c3 : 55296 ≤ ch ∧ ch ≤ 56319
             · rw [if_pos c3, if_pos c3, e1]
               by_cases c4 : size / 2 ≤ i + 1
               · rw [if_pos c4]
